@@ -11,3 +11,6 @@ cp "$REPO/go.sum" go.sum
 mkdir -p bin
 $GO test -c -tags verif -o bin/kverif.test ./cmd/kverif
 rm -f bin/kverif
+if [ -n "$KVERIF_RACE" ]; then
+  CGO_ENABLED=1 $GO test -c -race -tags verif -o bin/kverif-race.test ./cmd/kverif
+fi
